@@ -195,8 +195,9 @@ Definition pctl_nonint (p : Q) (sorted : list val) : oval :=
   | None => OPanic
   end.
 
-(* GetPercentileLinearlyInterpolated: findex := (p/100)*(n-1), clamped below at 0 only; iindex := floor;
-   if iindex >= n-1 then array[iindex] (out of range when iindex > n-1: Go panics) else linear interpolation *)
+(* GetPercentileLinearlyInterpolated: findex := (p/100)*(n-1), clamped below at 0; iindex := floor;
+   if iindex >= n-1 then array[n-1] (clamped above; repaired by fix: 444a9e97f -- it indexed array[iindex]) else
+   linear interpolation *)
 Definition pctl_findex (p : Q) (n : Z) : Q :=
   let f := p / 100 * inject_Z (n - 1) in if Qle_bool 0 f then f else 0.
 Definition pctl_interp (p : Q) (sorted : list val) : oval :=
@@ -204,7 +205,7 @@ Definition pctl_interp (p : Q) (sorted : list val) : oval :=
   let f := pctl_findex p n in
   let i := Qfloor f in
   if (n - 1 <=? i)%Z then
-    match nthZ i sorted with Some v => oval_of_val v | None => OPanic end
+    match nthZ (n - 1) sorted with Some v => oval_of_val v | None => OPanic end
   else
     match nthZ i sorted, nthZ (i + 1) sorted with
     | Some a, Some b =>
